@@ -40,15 +40,19 @@ func generateRefreshTokenGrant(
 		return response{}, err
 	}
 
-	if err := updateRefreshTokenGrantInfo(ctx, &grantSession.GrantInfo, req); err != nil {
+	// Work on a copy of the grant information so that the grant session, which
+	// may be shared with the storage, is only changed if the request succeeds.
+	grantInfo := grantSession.GrantInfo
+	if err := updateRefreshTokenGrantInfo(ctx, &grantInfo, req); err != nil {
 		return response{}, err
 	}
 
-	token, err := Make(ctx, grantSession.GrantInfo, client)
+	token, err := Make(ctx, grantInfo, client)
 	if err != nil {
 		return response{}, fmt.Errorf("could not generate token during refresh token grant: %w", err)
 	}
 
+	grantSession.GrantInfo = grantInfo
 	if err := updateRefreshTokenGrantSession(ctx, grantSession, token); err != nil {
 		return response{}, err
 	}
